@@ -484,7 +484,7 @@ PROPS["C01"]["parts"] = [
     {"name": "ea", "harness": "ea.c", "flavor": "ubsan", "images": (("s", "server"), ("ca", "client")), "args": ["--prop", "C01"]},
     dict(_TWO, args=["--prop", "C01"]),
 ]
-PROPS["C01"]["tiers"] = {"quick": {"budget_s": 480}, "thorough": {"budget_s": 3000}}
+PROPS["C01"]["tiers"] = {"quick": {"budget_s": 480}, "thorough": {"budget_s": 2400}}
 PROPS["C01"]["level_text"] += " A second part runs two real clients behind the server (20 cells: NULL/TXT/MX/CNAME/PRIVATE x lazy/immediate x fragment size) with packets from client to client, client to server, server to client and to an unassigned address, on the clean path and under every single fate deviation (thorough: two deviations)."
 PROPS["C14"]["parts"].append(dict(_TWO, args=["--prop", "C14"]))
 PROPS["C14"]["level_text"] += " (3) The same wire monitor on the two-client exploration (client-to-client packets are sent on the other session's held query)."
@@ -499,7 +499,7 @@ PROPS["C06"]["level_text"] += " The menu includes names that expand beyond any n
 PROPS["C04"]["level_text"] += " A fifth start state has a lazy-mode session with a ping held by the server (so that a slot can change hands while the server still remembers a query of the previous owner)."
 PROPS["C03"]["level_text"] += " A fifth start state has a logged-in lazy-mode session with a ping held by the server."
 for _p in ("C10", "C14", "C15"):
-    PROPS[_p]["tiers"]["thorough"]["budget_s"] = 3600
+    PROPS[_p]["tiers"]["thorough"]["budget_s"] = 1800      # a deadline for the deviation-bounded phases; was 3600 - a whole thorough pass of all 20 must fit into one working session
 
 # ---- memory-safety oracles on the protocol-state explorations of other checks (--san-as): the sanitizers are the only
 # oracle there, reports in the server count for C05 and reports in the client for C06
@@ -523,7 +523,7 @@ def cov_c05_parts(st, tier):
     base["rule"] += " Extra parts: the searches of C03 (auth), C16 (lazy), C20 (fwd) and the client+server explorations of C01 (ea, two clients) are re-run with the sanitizers as the only oracle; their states/executions and transitions are added."
     return base
 PROPS["C05"]["coverage"] = cov_c05_parts
-PROPS["C05"]["tiers"] = {"quick": {"budget_s": 900}, "thorough": {"budget_s": 3000}}
+PROPS["C05"]["tiers"] = {"quick": {"budget_s": 900}, "thorough": {"budget_s": 2400}}
 PROPS["C05"]["parts"] = [
     {"name": "main", "harness": "C05.c", "flavor": "asan", "images": (("s", "server"),), "args": [], "weight": 1},
     {"name": "auth", "harness": "auth.c", "flavor": "ubsan", "images": (("s", "server"),), "args": ["--prop", "C03", "--san-as", "C05"], "weight": 1},
@@ -547,7 +547,7 @@ def cov_c06_parts(st, tier):
     base["rule"] += " Extra parts: the client+server explorations of C01 (one and two clients), the relay family of C11 and the login-reply enumeration of C13 are re-run with the sanitizers as the only oracle for the client."
     return base
 PROPS["C06"]["coverage"] = cov_c06_parts
-PROPS["C06"]["tiers"] = {"quick": {"budget_s": 1200}, "thorough": {"budget_s": 3600}}
+PROPS["C06"]["tiers"] = {"quick": {"budget_s": 1200}, "thorough": {"budget_s": 2400}}
 PROPS["C06"]["parts"] = [
     {"name": "main", "harness": "C06.c", "flavor": "asan", "images": (("s", "server"), ("ca", "client")), "args": [], "weight": 6},
     {"name": "ea", "harness": "ea.c", "flavor": "asan", "images": (("s", "server"), ("ca", "client")), "args": ["--prop", "C01", "--san-as", "C06"], "weight": 3},
